@@ -35,7 +35,7 @@ def tlv_mod_stubs(u, t):
     u.raw("}\n")
 
 
-def build(u):
+def build(u, slices_only=None, whole=True):
     h = Src.get("htlc_manager.rs")
     m = Src.get("messages.rs")
     t = Src.get("tlv.rs")
@@ -43,6 +43,7 @@ def build(u):
     u.raw("#![feature(sized_hierarchy)]\nuse vstd::prelude::*;\nuse vstd::std_specs::cmp::OrdSpec;\nuse ::std::sync::Arc;\nverus! {\n")
     u.raw("global size_of usize == 8;\n")
     u.env("prelude.rs")
+    u.env("std_extra.rs")
     u.canary_decls()
     u.env("std_shadow.rs")
     u.env("anyhow.rs")
@@ -80,11 +81,13 @@ def build(u):
     for f in ["new", "add_htlc", "fail"]:
         u.fn(h, h.find_fn_in(imp, f), f"htlc_manager::PaymentState::{f}", stub=True)
     u.raw("}\n")
-    u.spec("handle.rs")
+    u.spec("handle.rs", shared=True)
     u.impl(h, "HtlcManager", ["check_htlc", "extract_trampoline_info", "trampoline_fee_or_expiry_insufficient"], "htlc_manager")
     u.free_fn(h, "default_response", "htlc_manager")
     u.fn(h, h.find("payment_lifecycle", "fn"), "htlc_manager::payment_lifecycle", stub=True)
     # ---- the whole handle_htlc ----
+    if not whole:
+        return _finish(u, h, slices_only)
     u.ghost_callees["m:lock"] = "Tracked(w)"
     u.ghost_callees["m:fail"] = "Tracked(g)"
     u.ghost_callees["m:add_htlc"] = "Tracked(g)"
@@ -93,6 +96,16 @@ def build(u):
     u.impl(h, "HtlcManager", ["handle_htlc"], "htlc_manager")
     for k in ["m:lock", "m:fail", "m:add_htlc", "m:or_insert_with", "m:context"]:
         del u.ghost_callees[k]
+    _finish(u, h, slices_only)
+
+
+def _finish(u, h, slices_only):
+    if slices_only is not None:
+        slices_only(u, h)
+    u.raw("}\n} // verus!\nfn main() {}\n")
+
+
+def emit_slices(u, h):
     # ---- E6 slices of handle_htlc ----
     im = h.find("HtlcManager", "impl")
     hh = h.find_fn_in(im, "handle_htlc")
@@ -100,7 +113,7 @@ def build(u):
     u.raw("\n")
     u.ghost_callees["m:lock"] = "Tracked(w)"
     u.slice(h, hh, "htlc_manager::HtlcManager::handle_htlc#prefix",
-            r"^let trampoline = match self\.check_htlc\(req\)", r"^let forward_msat = match req\.onion\.forward_msat",
+            r"^let trampoline = match self\.check_htlc\(req\)", r"before:^\{\s*let mut payments = self\.payments\.lock\(\)",
             "fn handle_htlc__prefix(&self, req: &HtlcAcceptedRequest, Tracked(w): Tracked<&mut World>) -> (r: Option<HtlcAcceptedResponse>)",
             tail="None", wrap_return="Some",
             note="slice handle_htlc#prefix: parameters are handle_htlc's own (&self, req); `return X` wrapped as Some(X), fall-through as None")
@@ -115,4 +128,4 @@ def build(u):
                  "sender: oneshot::Sender<HtlcAcceptedResponse> are declared in the unit; each is forced by its use against an extracted real declaration "
                  "(fee_sufficient(u64,u64), PaymentState::{fail,add_htlc}, TrampolineInfo fields)")
     u.raw("}\n")
-    u.raw("}\n} // verus!\nfn main() {}\n")
+
